@@ -88,7 +88,7 @@ class C06(Check):
         reuse = streams["knobs"].choice([0.0, 0.2, 0.2, 0.9])  # how often the receiver re-uses its one long-lived buffer object per code
         ops = []
         recent = []
-        for _ in range(w.choice([200, 1000, 3000])):
+        for _ in range(w.choice([200, 1000, 3000, 9000])):
             c = w.choice(codes)
             n, k = CODES[c][2], CODES[c][3]
             x = w.random()
@@ -119,6 +119,9 @@ class C06(Check):
             if not bits.startswith(("cw:", "le:", "rb:")) and op != "generate!":
                 recent.append(bits)
                 del recent[:-8]
+            if len(ops) > 40 and w.random() < 0.01:
+                ops.append(list(w.choice(ops[:24])))  # one of the very first calls of this process again, however much happened since
+        ops += [list(o) for o in ops[:24]]
         return {"task": "ops", "ops": ops}
 
     def sample(self, case):
@@ -369,7 +372,11 @@ class C06(Check):
                     fail("C06.result-aliased", c, f"{c}: the array generate() returned for message {int2ba(m, k).to01()} changed after later generate() calls: now "
                          f"{[int(x) & 1 for x in garr.tolist()]}, was {want}", [[c, "generate-np-held", f"{a}:{b}"]])
                     break
-            for m in range(a, b):
+            import random as _random
+
+            morder = list(range(a, b))
+            _random.Random(core.derive("C06codewords", c, a, case.get("run_seed", 0))).shuffle(morder)  # complete block, seeded visiting order
+            for m in morder:
                 msg = int2ba(m, k)
                 cw = bitarray(cls.generate(msg).tolist())
                 res["evals"] += 1
